@@ -77,6 +77,7 @@ class Recorder(object):
         self.undec = collections.Counter()
         self.undec_items = []
         self.samples = []
+        self.keymap = None         # optional module-level KEYMAP(key) -> coarser mechanism key (set by the worker)
         self.auto_samples = []     # the first few evaluated cases, used when the module records no samples itself
         self.maxima = {}
         self.notes = {}
@@ -119,6 +120,11 @@ class Recorder(object):
     # -- verdicts -----------------------------------------------------------------
     def violation(self, key, what, case, observed=None, expected=None, severity=None):
         """A soundly decided violation. ``key`` is a *mechanism* key (never a case hash)."""
+        if self.keymap is not None:
+            fine = key
+            key = self.keymap(key)
+            if isinstance(case, dict) and fine != key:
+                case = dict(case, fine_key=fine)
         ent = self.viol.setdefault(key, {'count': 0, 'items': [], 'max_severity': None})
         ent['count'] += 1
         if severity is not None and (ent['max_severity'] is None or severity > ent['max_severity']):
